@@ -424,7 +424,7 @@ class GraphBuilder(BuilderBase):
         # initializers live in the root graph (outer-scope initializers are
         # visible to subgraphs per the ONNX spec).
         if parent is None:
-            self._constant_cache: dict[tuple[Any, ir.DataType | None], ir.Value] = {}
+            self._constant_cache: dict[tuple[Any, ...], ir.Value] = {}
             self._functions: dict[ir.OperatorIdentifier, ir.Function] = {}
 
     def opset(self, domain: str, version: int = 1) -> OpBuilder:
@@ -611,7 +611,8 @@ class GraphBuilder(BuilderBase):
         if isinstance(value, (int, float, bool, str)):
             if dtype is None:
                 dtype = _PYTHON_TYPE_TO_DTYPE.get(type(value))
-            cache_key = (value, dtype)
+            # repr() keeps apart values that compare equal but denote different tensors (0.0 vs -0.0).
+            cache_key = (value, repr(value), dtype)
             if cache_key in root._constant_cache:
                 return root._constant_cache[cache_key]
             type_suffix = _dtype_suffix(dtype) if dtype is not None else ""
@@ -628,7 +629,7 @@ class GraphBuilder(BuilderBase):
         ):
             if dtype is None:
                 dtype = _PYTHON_TYPE_TO_DTYPE.get(type(value[0]))
-            cache_key = (tuple(value), dtype)
+            cache_key = (tuple(value), repr(value), dtype)
             if cache_key in root._constant_cache:
                 return root._constant_cache[cache_key]
             type_suffix = _dtype_suffix(dtype) if dtype is not None else ""
